@@ -15,7 +15,8 @@ RULE = ("seeded request streams of 4-30 requests mixing synchronous, asynchronou
         "beyond the recursion limit, lone-surrogate text), exception whose arguments cannot be encoded, arguments that "
         "cannot be decoded (unknown local reference, invalid label, wrong arity, unknown handler); plus runs in which 2-3 threads "
         "serve one connection at once (serve_threaded style) under the controlled scheduler with pre-emption inside _send and "
-        "_dispatch_request. distinct = sequence of (mode, outcome) pairs / switch trace; non-trivial = contains at least one anomalous "
+        "_dispatch_request, a third of them with a second thread serving the REQUESTER's connection too (pre-emption inside "
+        "_async_request and _seq_request_callback). distinct = sequence of (mode, outcome) pairs / switch trace; non-trivial = contains at least one anomalous "
         "outcome or nesting / a pre-emption")
 ASSUMPTIONS = ["in-memory transport; peer B served by one thread running the real serve_all(), peer A single driver thread",
                "frames are parsed by lib/rv/refcodec.py, not by rpyc"]
